@@ -15,11 +15,11 @@ TOOLS = ["colander", "combine", "chef", "mandoline", "whip", "marinate", "chk2pl
          "taste", "menu", "minuterie", "pestle"]
 RULE = ("case = tool in {colander, combine, chef(user recipe), mandoline(array/plotfile), whip, marinate, chk2plt, "
         "taste, menu, minuterie, pestle} x invocation form (API/CLI, explicit rel/abs or default output, input given "
-        "abs/rel/with trailing slash, cwd = work dir or the input's parent) x arm in {clean, unknown field, "
+        "abs/rel/with trailing slash or as '.' from inside it, cwd = work dir or the input's parent) x arm in {clean, unknown field, "
         "unreadable input (read-open fault on Header / a level header / a binary), write faults}. Write-fault arm: a "
         "fault-free pilot run numbers every open-for-write/write/close/mkdir site of the run (parent and pool "
         "workers, same seeded schedule), then each site is hit once per applicable kind (EACCES/ENOSPC/EMFILE at "
-        "open, EIO/ENOSPC/torn prefix at write, EIO at close, ENOSPC/EACCES at mkdir; transient or sticky) up to the "
+        "open, EIO/ENOSPC/torn prefix/short count at write, EIO at close, ENOSPC/EACCES at mkdir; transient or sticky) up to the "
         "per-case cap, a drawn subset above it; kind CRASH = the process is killed at that open/write (a BaseException no "
         "handler is meant to see): only the input/confinement invariants are demanded then. Checked on every run: audit log (writes only under the requested "
         "output or, for defaults, beside and never inside an input), before/after snapshots of every input tree "
